@@ -20,11 +20,11 @@ Step ==
      IF e.ev = "Crash" THEN MM([tag |-> "MM", i |-> l, ev |-> "Crash", api |-> "", label |-> "Crash", exp |-> "", got |-> "process-died", detail |-> ""])
      ELSE IF e.ev = "HM" THEN
         LET have == {e.have[i] : i \in 1..Len(e.have)}
-            x == Expect(e.anns, have, e.body, e.req, e.o)
-            eff == Expect(Effective(e.anns), have, e.body, e.req, e.o)
+            x == ExpectL(e.lvl, e.anns, have, e.body, e.req, e.o)
+            eff == ExpectL(e.lvl, Effective(e.anns), have, e.body, e.req, e.o)
             got == IF e.st = "ok" THEN Out("ok", e.got) ELSE Out(e.st, "")
             R(lbl) == [tag |-> "MM", i |-> l, ev |-> "HM", api |-> e.ty, label |-> lbl, exp |-> IF x.st = "ok" THEN x.val ELSE x.st,
-                       got |-> IF e.st = "ok" THEN e.got ELSE e.st, detail |-> e.req \o "/" \o e.body] IN
+                       got |-> IF e.st = "ok" THEN e.got ELSE e.st, detail |-> e.lvl \o "/" \o e.req \o "/" \o e.body] IN
         /\ IF x.st = "unspec" THEN Chk(e.st \in {"ok", "err"}, R("NoPanic"))
            ELSE IF got = x THEN TRUE
            ELSE IF got = eff THEN MM(R("ListedOrder"))          \* follows the parser's effective order, not the listed one
